@@ -497,13 +497,25 @@ func execC18(sc *Scenario, env *Env) *Result {
 	for _, ed := range edits {
 		editArgs = append(editArgs, ed.arg())
 	}
-	sc.Lines[0].Extra = nil
-	sc.Lines[1].Extra = append([]string{"CropFile=" + fname}, editArgs...)
+	// a quarter of the scenarios: the original parameter folder is a copy too, and the crop file vanishes from it once the
+	// session has loaded it (a clean-up, an unmounted share); the session holds its content, every line still gets it
+	vanish := r.Bool(0.25) || sc.Params["vanish"] == "1"
+	var base []string
+	if vanish {
+		if err := copyDir(env.ParamDir, filepath.Join(root, "param1")); err != nil {
+			res.Status, res.Note = "invalid", err.Error()
+			return res
+		}
+		base = []string{"parameter=param1"}
+	}
+	sc.Lines[0].Extra = append([]string{}, base...)
+	sc.Lines[1].Extra = append(append(append([]string{}, base...), "CropFile="+fname), editArgs...)
 	sc.Lines[2].Extra = []string{"parameter=param2"}
-	sc.Lines[3].Extra = append(append([]string{"CropFile=" + fname}, editArgs...), bad.arg())
+	sc.Lines[3].Extra = append(append(append(append([]string{}, base...), "CropFile="+fname), editArgs...), bad.arg())
 	if r.Bool(0.5) { // position of the offending value among the valid ones
 		ex := sc.Lines[3].Extra
-		ex[1], ex[len(ex)-1] = ex[len(ex)-1], ex[1]
+		k := 1 + len(base)
+		ex[k], ex[len(ex)-1] = ex[len(ex)-1], ex[k]
 	}
 	// a fifth line: the same overrides with every decimal value moved in its seventh decimal place (values that agree
 	// to six decimals are still different values)
@@ -518,7 +530,7 @@ func execC18(sc *Scenario, env *Env) *Result {
 		nearArgs = append(nearArgs, ed.arg())
 	}
 	if nudged {
-		sc.Lines = append(sc.Lines, BatchLine{World: sc.Lines[1].World, Extra: append([]string{"CropFile=" + fname}, nearArgs...)})
+		sc.Lines = append(sc.Lines, BatchLine{World: sc.Lines[1].World, Extra: append(append(append([]string{}, base...), "CropFile="+fname), nearArgs...)})
 	}
 	var lines []string
 	for i := range sc.Lines {
@@ -531,7 +543,35 @@ func execC18(sc *Scenario, env *Env) *Result {
 		ref4 = freshReference(env, root, sc.lineArgs(4), outIDOf(sc, 4))
 	}
 	disk := NewSimDisk()
-	out := env.RunBatch(root, lines, sc.Sched, disk, true, 0, -1, 0)
+	sched := sc.Sched
+	if vanish {
+		target := filepath.Join(root, "param1", fname)
+		probe := env.RunBatch(root, lines, sc.Sched, NewSimDisk(), true, 0, -1, 0)
+		loaded := -1
+		for _, rel := range probe.Released {
+			if rel.Point == "pool.get" && rel.Detail == target {
+				loaded = rel.Dec
+				break
+			}
+		}
+		if loaded >= 0 && probe.Panic == "" && probe.Deadlock == "" {
+			at := loaded + 1 + r.Intn(4)
+			sp := *sc.Sched
+			sp.Decisions, sp.Policy = probe.Decisions, ""
+			sched = &sp
+			gone := false
+			batchFaultHook = func(k int) {
+				if k >= at && !gone {
+					gone = true
+					os.Rename(target, target+".gone")
+				}
+			}
+			defer func() { batchFaultHook = nil }()
+			res.add("fault.crop-file-vanishes-after-its-first-load", 1)
+		}
+	}
+	out := env.RunBatch(root, lines, sched, disk, true, 0, -1, 0)
+	batchFaultHook = nil
 	res.add("batches", 1)
 	res.add("decisions", float64(len(out.Decisions)))
 	if out.MaxParked >= 2 {
@@ -628,7 +668,7 @@ func init() {
 		MaxBadShare: 0.2,
 		NonTrivial:  func(res *Result) bool { return res.Status == "ok" && res.Stats["reach.override-changes-results"] > 0 },
 		Rule:        "one batch scenario per evaluation: four lines of one generated project in one session under the seeded scheduler — baseline, 1-3 crop-parameter overrides on the line, the same values edited into a copy of the crop parameter file (classic or YAML, selected through the parameter-folder argument), and the overrides plus one out-of-range value; the crop file rotates over every shipped annual crop (varieties included), the parameters over every overridable base, per-stage and per-organ kind; a fifth line repeats the overrides with every decimal value moved in its seventh decimal place; oracles: streams of line 2 and 3 byte-identical (after renaming the output id), streams of line 4 identical to the baseline, the baseline line and the fifth line byte-identical to the same line run alone in a fresh process; non-trivial = the override changed the results",
-		ReachKeys:   []string{"reach.override-changes-results", "reach.interleaved", "reach.baseline-solo-reference", "reach.near-equal-override-line", "reach.near-equal-override-changes-results", "format.yml", "format.classic", "param.TSUM", "param.MAXAMAX", "param.PRO", "param.DEAD", "param.KC"},
+		ReachKeys:   []string{"reach.override-changes-results", "reach.interleaved", "reach.baseline-solo-reference", "fault.crop-file-vanishes-after-its-first-load", "reach.near-equal-override-line", "reach.near-equal-override-changes-results", "format.yml", "format.classic", "param.TSUM", "param.MAXAMAX", "param.PRO", "param.DEAD", "param.KC"},
 		Assumptions: []string{
 			"the value is written with the same decimal text on the line and into the file",
 			"classic files: YIFAK (shares its field with the organ number) and PRO pairs are edited in YAML files only",
